@@ -6,6 +6,13 @@
            legacy                     the deprecated mh_* names (host dispatch)
            legacy_base                mh_*_update_base / mh_*_finalize_base
    placement: e = end of the buffer flush against a PROT_NONE page; aK = start K bytes after one.
+   J <id> <family> <alg> <seed> <total-hex> <partial-hex> <interim-hex> <h1> <h2> <stream-hex> <ctx-placement> <nseg> <len>...
+           state injection: after init the context fields are overwritten (total_length; partial_block_buffer[0..|partial|),
+           |partial| = total % 1024; interim digests in memory order; murmur words), then as U.
+   B <id> <family> <alg> <seed> <pattern-seed> <prefix-len> <chunk> <stream-hex> <ctx-placement> <nseg> <len>...
+           a real long stream: first <prefix-len> bytes of the periodic pattern (period <chunk>, byte i of the period =
+           top byte of x_i, x_0 = pattern-seed, x_{i+1} = x_i * 6364136223846793005 + 1442695040888963407 mod 2^64) fed in
+           updates of <chunk> bytes, the context is printed ("k" record), then <stream> as in U.
    The context is prefilled with junk before init.  After every update (cases with more than
    64 updates: after every 16th and the last) the context fields
    (total_length, partial_block_buffer[0 .. total%1024), interim digests, murmur words) are
@@ -119,11 +126,11 @@ release_all(void)
 }
 
 static void
-dump_ctx(struct algd *a, uint8_t *ctx)
+dump_ctx_tag(struct algd *a, uint8_t *ctx, char tag)
 {
         uint64_t total;
         memcpy(&total, ctx + a->off_total, 8);
-        printf(" u %llx ", (unsigned long long) total);
+        printf(" %c %llx ", tag, (unsigned long long) total);
         puthex(stdout, ctx + a->off_partial, (size_t) (total % 1024));
         printf(" ");
         for (int i = 0; i < a->nw * 16; i++) {
@@ -136,6 +143,12 @@ dump_ctx(struct algd *a, uint8_t *ctx)
                 memcpy(h, ctx + a->off_mur, 16);
                 printf(" %016llx %016llx", (unsigned long long) h[0], (unsigned long long) h[1]);
         }
+}
+
+static void
+dump_ctx(struct algd *a, uint8_t *ctx)
+{
+        dump_ctx_tag(a, ctx, 'u');
 }
 
 int
@@ -155,7 +168,11 @@ main(int argc, char **argv)
         while (fgets(line, sizeof line, stdin)) {
                 int nt = 0;
                 for (char *p = strtok(line, " \n"); p && nt < 70000; p = strtok(NULL, " \n")) tok[nt++] = p;
-                if (nt < 8 || strcmp(tok[0], "U")) continue;
+                if (nt < 8 || (strcmp(tok[0], "U") && strcmp(tok[0], "J") && strcmp(tok[0], "B"))) continue;
+                /* token positions of the common fields per line kind */
+                int kind = tok[0][0], i_stream = kind == 'U' ? 5 : kind == 'J' ? 10 : 8;
+                int i_ctxp = i_stream + 1, i_seg0 = i_stream + 3;
+                if (nt < i_seg0) continue;
                 const char *id = tok[1], *fam = tok[2];
                 struct algd *a = NULL;
                 for (int i = 0; i < 3; i++)
@@ -163,8 +180,8 @@ main(int argc, char **argv)
                 printf("%s", id);
                 if (!a) { printf(" badalg\n"); continue; }
                 uint64_t seed = strtoull(tok[4], NULL, 16);
-                size_t slen = unhex(tok[5], stream, sizeof stream);
-                const char *ctxp = tok[6];
+                size_t slen = unhex(tok[i_stream], stream, sizeof stream);
+                const char *ctxp = tok[i_ctxp];
 
                 void *f_init = a->pub_init, *f_upd = NULL, *f_fin = NULL;
                 int dispatched = 0;
@@ -191,9 +208,46 @@ main(int argc, char **argv)
                 for (size_t i = 0; i < a->ctxsz; i++) ctx[i] = (uint8_t) (0xC3 ^ (i * 37) ^ (seed >> (i & 31)));
                 int rc = a->is_mur ? ((int (*)(void *, uint64_t)) f_init)(ctx, seed) : ((int (*)(void *)) f_init)(ctx);
                 if (rc) printf(" initrc%d", rc);
+                if (kind == 'J') {
+                        static uint8_t tmpb[4096];
+                        uint64_t total0 = strtoull(tok[5], NULL, 16);
+                        memcpy(ctx + a->off_total, &total0, 8);
+                        size_t pl = unhex(tok[6], tmpb, sizeof tmpb);
+                        if (pl != total0 % 1024) { printf(" badcase\n"); release_all(); continue; }
+                        memcpy(ctx + a->off_partial, tmpb, pl);
+                        const char *ih = tok[7];
+                        for (int i = 0; i < a->nw * 16; i++) {
+                                char w8[9];
+                                memcpy(w8, ih + 8 * i, 8);
+                                w8[8] = 0;
+                                uint32_t w = (uint32_t) strtoul(w8, NULL, 16);
+                                memcpy(ctx + a->off_interim + 4 * i, &w, 4);
+                        }
+                        if (a->is_mur) {
+                                uint64_t h[2] = { strtoull(tok[8], NULL, 16), strtoull(tok[9], NULL, 16) };
+                                memcpy(ctx + a->off_mur, h, 16);
+                        }
+                } else if (kind == 'B') {
+                        uint64_t x = strtoull(tok[5], NULL, 16), prefix = strtoull(tok[6], NULL, 10);
+                        size_t chunk = strtoul(tok[7], NULL, 10);
+                        uint8_t *pat = malloc(chunk ? chunk : 1);
+                        if (!pat) { perror("malloc"); exit(2); }
+                        heap_bufs[heap_n++] = pat;
+                        for (size_t i = 0; i < chunk; i++) {
+                                pat[i] = (uint8_t) (x >> 56);
+                                x = x * 6364136223846793005ULL + 1442695040888963407ULL;
+                        }
+                        while (prefix > 0 && chunk > 0) {
+                                uint32_t n = prefix < chunk ? (uint32_t) prefix : (uint32_t) chunk;
+                                rc = ((upd_fn) f_upd)(ctx, pat, n);
+                                if (rc) { printf(" rc%d", rc); break; }
+                                prefix -= n;
+                        }
+                        dump_ctx_tag(a, ctx, 'k');
+                }
                 size_t pos = 0;
                 int bad = 0;
-                for (int s = 8; s < nt && !bad; s++) {
+                for (int s = i_seg0; s < nt && !bad; s++) {
                         size_t n = strtoul(tok[s], NULL, 10);
                         const char *pl = strchr(tok[s], ':');
                         if (pos + n > slen) { printf(" badcase"); bad = 1; break; }
@@ -202,7 +256,7 @@ main(int argc, char **argv)
                         rc = ((upd_fn) f_upd)(ctx, buf, (uint32_t) n);
                         if (rc) printf(" rc%d", rc);
                         /* more than 64 updates: the context is printed after every 16th and the last */
-                        if (nt - 8 <= 64 || (s - 8) % 16 == 15 || s == nt - 1) dump_ctx(a, ctx);
+                        if (nt - i_seg0 <= 64 || (s - i_seg0) % 16 == 15 || s == nt - 1) dump_ctx(a, ctx);
                         if (memcmp(buf, stream + pos, n)) printf(" inputmodified");
                         pos += n;
                 }
